@@ -72,8 +72,37 @@ class RecMixin:
     def onOpen(self):
         self.vlog.append(("onOpen", self.who))
 
+    # the frame-level receive API: record the bracket structure, then let the default implementation assemble the message
+    _cbs = None
+
+    def _cb(self, tag, n=0):
+        if self._cbs is None:
+            self._cbs = []
+        self._cbs.append([tag, n])
+
+    def onMessageBegin(self, isBinary):
+        self._cb("mb", 1 if isBinary else 0)
+        super().onMessageBegin(isBinary)
+
+    def onMessageFrameBegin(self, length):
+        self._cb("fb", int(length))
+        super().onMessageFrameBegin(length)
+
+    def onMessageFrameData(self, payload):
+        self._cb("fd", len(payload))
+        super().onMessageFrameData(payload)
+
+    def onMessageFrameEnd(self):
+        self._cb("fe")
+        super().onMessageFrameEnd()
+
+    def onMessageEnd(self):
+        self._cb("me")
+        super().onMessageEnd()
+
     def onMessage(self, payload, isBinary):
-        self.vlog.append(("onMessage", self.who, bytes(payload), bool(isBinary)))
+        cbs, self._cbs = (self._cbs or []), None
+        self.vlog.append(("onMessage", self.who, bytes(payload), bool(isBinary), cbs))
         f = getattr(self.factory, "v_onmessage", None)
         if f is not None:
             f(self, payload, isBinary)
